@@ -1,9 +1,12 @@
 package props
 
 import (
+	"encoding/base64"
+	"encoding/json"
 	"fmt"
 	"math/rand/v2"
 	"runtime"
+	"strings"
 	"sync/atomic"
 
 	"github.com/privacybydesign/gabi"
@@ -159,6 +162,7 @@ func runC11(r *mon.Run) {
 	r.FloorFam("adv-alter", 500)
 	r.FloorFam("adv-alpha-shift", 20)
 	r.FloorFam("adv-degenerate-commitments", 20)
+	r.FloorFam("adv-wire", 100)
 }
 
 // c11Rejected classifies the rejection of a proof that ought to verify.
@@ -533,6 +537,51 @@ func c11Adversarial(r *mon.Run, key *world.Key, jr *rand.Rand, idx int) {
 		}
 	})
 	alter("non-revocation part dropped", func(d *gabi.ProofD) { d.NonRevocationProof = nil })
+	// wire-level: whatever the library puts on the wire below "sacc" besides the signed bytes and the key counter must not be able to
+	// steer what the verifier reads; every such leaf is altered, and forged accumulators are injected under plausible member names
+	if doc, err := json.Marshal(gabi.ProofList{lib}); err == nil {
+		tree := decodeTree(doc)
+		var muts []jmut
+		walk(tree, nil, func(p jpath, v any) {
+			ps := p.String()
+			if !strings.Contains(ps, ".sacc.") || strings.HasSuffix(ps, ".sacc.data") || strings.HasSuffix(ps, ".sacc.pk") {
+				return
+			}
+			switch xv := v.(type) {
+			case json.Number:
+				muts = append(muts, jmut{"wire " + ps + " +7", "", marshalTree(setAt(tree, p, json.Number(xv.String()+"7"), false))})
+			case string:
+				muts = append(muts, jmut{"wire " + ps + " := AQ==", "", marshalTree(setAt(tree, p, "AQ==", false))})
+			}
+		})
+		forged := map[string]any{"Nu": base64.StdEncoding.EncodeToString(rev.Accs[0].Nu.Bytes()), "Index": json.Number("7"), "Time": json.Number("99"),
+			"EventHash": rev.Accs[0].EventHash.String()}
+		for _, name := range []string{"acc", "Acc", "accumulator", "Accumulator", "nu", "Nu"} {
+			p := jpath{0, "nonrev_proof", "sacc", name}
+			muts = append(muts, jmut{"wire inject sacc." + name, "", marshalTree(setAt(tree, p, forged, false))})
+		}
+		for _, name := range []string{"nu", "Nu", "challenge", "Challenge", "acc"} {
+			p := jpath{0, "nonrev_proof", name}
+			muts = append(muts, jmut{"wire inject nonrev_proof." + name, "", marshalTree(setAt(tree, p, "AQ==", false))})
+		}
+		for _, m := range muts {
+			var pl gabi.ProofList
+			if json.Unmarshal(m.doc, &pl) != nil || len(pl) != 1 {
+				r.Eval("adv-wire", "reject")
+				continue
+			}
+			d, isD := pl[0].(*gabi.ProofD)
+			if !isD {
+				continue
+			}
+			r.Distinct("adv-wire", m.desc, idx)
+			ok, pv, _ := verifyList(pl, pks, ctx, nonce, false, nil)
+			r.Eval("adv-wire", outcome(ok, pv))
+			if ok {
+				c11Accepted(r, "adv-wire", m.desc, d, tB)
+			}
+		}
+	}
 	// alpha shifted by k*ord across its bound (equation-preserving in the credential part and in the accumulator part)
 	for band, nv := range shiftBands(lib.AResponses[credB.RevIdx], ord, pow2(580)) {
 		dd := cloneD(lib)
